@@ -397,6 +397,38 @@ fn voxel_boxes(rng: &mut Rng, size: (u32, u32, u32)) -> Built {
     Built { ctx, root: acc.unwrap(), desc: "voxel-boxes".into() }
 }
 
+/// solids that run through the front of the grid: boxes and cylinders along z from somewhere inside to far beyond the top,
+/// so that whole tiles are proved full at the top of the stack whatever the depth is a multiple of
+fn pillars(rng: &mut Rng, size: (u32, u32, u32)) -> Built {
+    let vs = VoxelSize::new(size.0, size.1, size.2);
+    let s2w = vs.screen_to_world();
+    let pos = |i: f32, j: f32, k: f32| s2w.transform_point(&nalgebra::Point3::new(i, j, k));
+    let mut ctx = Context::new();
+    let mut acc: Option<Node> = None;
+    for q in 0..(1 + rng.below(3)) {
+        let z0 = rng.below(size.2 as usize) as f32;
+        let far = size.2 as f32 + 100.0;
+        let b = if q % 2 == 0 {
+            let lo = [rng.below(size.0 as usize) as f32, rng.below(size.1 as usize) as f32];
+            let hi = [(lo[0] + 1.0 + rng.below(size.0 as usize) as f32).min(size.0 as f32 + 3.0), (lo[1] + 1.0 + rng.below(size.1 as usize) as f32).min(size.1 as f32 + 3.0)];
+            let a = pos(lo[0] - 0.5, lo[1] - 0.5, z0 - 0.5);
+            let c = pos(hi[0] + 0.5, hi[1] + 0.5, far);
+            shapes::box3(&mut ctx, [a.x.min(c.x), a.y.min(c.y), a.z.min(c.z)], [a.x.max(c.x), a.y.max(c.y), a.z.max(c.z)])
+        } else {
+            // a cylinder along z, cut below z0
+            let c0 = pos(rng.range(0.0, size.0 as f32), rng.range(0.0, size.1 as f32), z0 - 0.5);
+            let r = rng.range(0.2, 0.9);
+            let cyl = shapes::circle(&mut ctx, c0.x, c0.y, r);
+            let z = ctx.z();
+            let k = ctx.constant(c0.z);
+            let below = ctx.sub(k, z).unwrap();
+            ctx.max(cyl, below).unwrap()
+        };
+        acc = Some(match acc { None => b, Some(p) => ctx.min(p, b).unwrap() });
+    }
+    Built { ctx, root: acc.unwrap(), desc: "pillars".into() }
+}
+
 /// a voxel set of the Render3D.tla generator realised as a union of voxel-aligned boxes (one per run of a column)
 fn voxel_set_shape(bits: &[u8], t0: usize, size: (u32, u32, u32)) -> Built {
     let vs = VoxelSize::new(size.0, size.1, size.2);
@@ -466,7 +498,7 @@ fn c07(cx: &mut Cx, voxsets: &str, quick: bool, rng: &mut Rng) {
             0 | 1 => stacked(rng, k),
             2 => voxel_boxes(rng, size),
             3 => { let n = 1 + rng.below(4); shapes::random_csg3(rng, n, false) }
-            _ => stacked(rng, k + 1),
+            _ => pillars(rng, size),
         };
         let tl = TILE_LISTS_3D[rng.below(TILE_LISTS_3D.len())];
         let mut view = Matrix4::identity();
@@ -565,7 +597,7 @@ fn tiles3_cases(cx: &mut Cx, quick: bool, rng: &mut Rng) {
             0 => voxel_boxes(rng, size),
             1 => stacked(rng, k),
             2 => { let n = 1 + rng.below(3); shapes::random_csg3(rng, n, false) }
-            _ => stacked(rng, k + 1),
+            _ => pillars(rng, size),
         };
         let mut view = Matrix4::identity();
         if k % 5 == 3 { view[(0, 3)] = rng.range(-0.3, 0.3); view[(2, 3)] = rng.range(-0.3, 0.3); }
